@@ -26,6 +26,7 @@ struct Node {
   bool nonzero = false;          // variable assumed != 0
   bool ge0 = false;              // variable assumed >= 0
   bool wild = false;             // variable standing for memory the library does not define (knot padding)
+  int inf = 0;                   // +1 / -1: the constant +inf / -inf (only ever compared)
 };
 static std::vector<Node> T;
 static std::unordered_map<std::string, uint32_t> H;   // hash-consing
@@ -75,7 +76,8 @@ static uint32_t mkbits(uint64_t bits, int width){   // UF mode: a constant is an
   if (d == d && !std::isinf(d)) { n.val = mpq_class(d); n.cmpdom = 1; n.point = true; n.lo = n.hi = n.val; }
   return mk(n, "k" + std::to_string(bits) + "w" + std::to_string(width));
 }
-extern "C" vr64 vs_const_bits64(uint64_t bits){ if (UF) return mkbits(bits, 64); double d; memcpy(&d, &bits, 8); return mkconst(from_double(d), 64); }
+static uint32_t mkinf(int sign){ Node n; n.k = K_CONST; n.width = 64; n.cmpdom = 0; n.inf = sign; n.name = sign > 0 ? "pinf" : "ninf"; return mk(n, sign > 0 ? "kpinf" : "kninf"); }
+extern "C" vr64 vs_const_bits64(uint64_t bits){ if (bits == 0x7ff0000000000000ULL) return mkinf(1); if (bits == 0xfff0000000000000ULL) return mkinf(-1); if (UF) return mkbits(bits, 64); double d; memcpy(&d, &bits, 8); return mkconst(from_double(d), 64); }
 extern "C" vr32 vs_const_bits32(uint32_t bits){ if (UF) return mkbits(bits, 32); float f; memcpy(&f, &bits, 4); return mkconst(from_double((double)f), 32); }
 extern "C" vr64 vs_q(long num, long den){ mpq_class q(num, den); q.canonicalize(); return mkconst(q, 64); }
 extern "C" vr64 vs_qstr(const char* s){
@@ -181,9 +183,23 @@ extern "C" uint64_t vs_bits(vr64 a){ (void)a; vs_error("float bit pattern inspec
 extern "C" vr64 vs_frombits(int width, uint64_t b){ return width == 64 ? vs_const_bits64(b) : vs_const_bits32((uint32_t)b); }
 
 // ---- ordering
+// known to be a finite number: everything in the exact-real domain; in UF mode finite constants, ranked / bounded variables
+// and |.|, -(.) of such (used by std::isfinite tests on data the harness declares finite)
+static bool finite_known(uint32_t a){
+  Node& x = N(a); if (x.inf) return false; if (!UF) return true;
+  if (x.k == K_CONST) return x.cmpdom != 0; if (x.k == K_VAR) return x.cmpdom != 0;
+  if (x.k == K_UF && x.b == 0xffffffffu && (x.name.rfind("fabs", 0) == 0 || x.name.rfind("fneg", 0) == 0)) return finite_known(x.a);
+  return false;
+}
 static int order_of(uint32_t a, uint32_t b){  // -1, 0, 1, or 2 = unknown
   if (a == b) return 0;
   Node& x = N(a); Node& y = N(b);
+  if (x.inf || y.inf) {
+    if (x.inf && y.inf) return x.inf < y.inf ? -1 : (x.inf > y.inf ? 1 : 0);
+    if (y.inf && finite_known(a)) return y.inf > 0 ? -1 : 1;
+    if (x.inf && finite_known(b)) return x.inf > 0 ? 1 : -1;
+    return 2;
+  }
   if (!x.cmpdom || !y.cmpdom || x.cmpdom != y.cmpdom) return 2;
   if (x.point && y.point) return cmp(x.lo, y.lo);
   // a strictly inside (lo,hi), b a point (or vice versa)
